@@ -453,6 +453,10 @@ impl Consumer {
             topic_ref,
             partition,
         };
+        // ~ only partitions this consumer actually consumes can be marked
+        if !self.state.fetch_offsets.contains_key(&tp) {
+            return Err(Error::Kafka(KafkaCode::UnknownTopicOrPartition));
+        }
         match self.state.consumed_offsets.entry(tp) {
             Entry::Vacant(v) => {
                 v.insert(state::ConsumedOffset {
